@@ -45,6 +45,12 @@ package main
 // and per column named c<digits> the search `<col>=*` (col=).  The generator gives every batch its own time window
 // (forward, backward, shuffled or coinciding) and lets later batches introduce new columns.
 //
+// Three defects of the flush in progress that this layer found are repaired (known_findings.txt, `fixed:` lines); their
+// detectors stay: crash/query-never-returns (a search that does not return within the limit, twice),
+// crash/orphan-column-chunk-misattributed (a column search returning an event without the column while the flush in
+// progress was writing that column's file), crash/inflight-new-column-dropped (an event of the flush in progress that
+// comes back without one of its fields).
+//
 // PropFail (independent of the model): see checkPoint.
 
 import (
